@@ -111,7 +111,7 @@ m = {
               "kind_free_text": "Rust harness that runs the real library under generated/hostile workloads with independent reference-model oracles, invariant hooks, fault-injecting streams and schedule control; verdicts from observed executions only"}],
  "checks": checks,
  "not_applicable": na,
- "notes": "Runtime monitoring only: every check executes the real library (built from /repo's working tree with the verif feature) and decides with an oracle over the observed executions. Exit 0 = held on everything explored, 1 = VIOLATION, 2 = inconclusive. Thorough tiers additionally repeat the quick workload in a plain release build, in an AddressSanitizer build and (selected small cases, six seeds) under Miri as undefined-behaviour monitor; C17 adds ThreadSanitizer (quick) and Miri (thorough). A process killed by a fatal signal inside library code is reported as a violation with the crashing case. Known findings: /verif/known_findings.json (all entries fixed). Seeded changes used to test the checks: /verif/seeded (120), hand-written mutants: /verif/mutants (35); DESIGN.md section 9 records which check catches which.",
+ "notes": "Runtime monitoring only: every check executes the real library (built from /repo's working tree with the verif feature) and decides with an oracle over the observed executions. Exit 0 = held on everything explored, 1 = VIOLATION, 2 = inconclusive. Thorough tiers additionally repeat the quick workload in a plain release build, in an AddressSanitizer build and (selected small cases, six seeds) under Miri as undefined-behaviour monitor; C17 adds ThreadSanitizer (quick) and Miri (thorough). A process killed by a fatal signal inside library code is reported as a violation with the crashing case. Known findings: /verif/known_findings.json (all entries fixed). Seeded changes used to test the checks: /verif/seeded (160, eight rounds), hand-written mutants: /verif/mutants (36); DESIGN.md section 9 records which check catches which.",
 }
 json.dump(m, open(os.path.join(here, "MANIFEST.json"), "w"), indent=1)
 print("checks:", len(checks), "not_applicable:", len(na))
